@@ -635,6 +635,46 @@ func dispatchComplete(p *core.Program, fd *core.FuncDecl, panicCall *ast.CallExp
 		}
 		return true
 	})
+	// a type switch whose default clause holds the panic: the clause types are what was covered
+	ast.Inspect(fd.Decl.Body, func(n ast.Node) bool {
+		ts, ok := n.(*ast.TypeSwitchStmt)
+		if !ok || !(ts.Pos() <= panicCall.Pos() && panicCall.End() <= ts.End()) {
+			return true
+		}
+		var subjExpr ast.Expr
+		switch a := ts.Assign.(type) {
+		case *ast.AssignStmt:
+			if t, ok := ast.Unparen(a.Rhs[0]).(*ast.TypeAssertExpr); ok {
+				subjExpr = t.X
+			}
+		case *ast.ExprStmt:
+			if t, ok := ast.Unparen(a.X).(*ast.TypeAssertExpr); ok {
+				subjExpr = t.X
+			}
+		}
+		v := core.VarOf(info, subjExpr)
+		if v == nil {
+			return true
+		}
+		inDefault := false
+		for _, cc := range ts.Body.List {
+			cl := cc.(*ast.CaseClause)
+			if cl.List == nil && cl.Pos() <= panicCall.Pos() && panicCall.End() <= cl.End() {
+				inDefault = true
+			}
+		}
+		if !inDefault {
+			return true
+		}
+		for _, cc := range ts.Body.List {
+			for _, te := range cc.(*ast.CaseClause).List {
+				if t := info.TypeOf(te); t != nil {
+					tas = append(tas, ta{v, t})
+				}
+			}
+		}
+		return true
+	})
 	if len(tas) == 0 {
 		return "", false
 	}
